@@ -128,8 +128,15 @@ def gen_instance(rng, maxn=6, maxT=5, G=3, family=None, p_linked=0.25):
                 path = ([jit(mid(g))] + ([jit(tuple(coord[g[1]]))] if rng.random() < 0.7 else []) + [jit(mid(f))]
                         + ([jit(tuple(coord[f[1]]))] if rng.random() < 0.5 else []))
                 family = family + '+linked-sibling'
+    pre = []
+    if rng.random() < 0.15:
+        # the matcher object is used for ANOTHER trace first (often one that stops early: its later points are far away);
+        # nothing of that call may leak into the calls that are validated
+        pre = [[rng.randint(0, 4 * G) / 4.0, rng.randint(0, 4 * G) / 4.0] for _ in range(rng.randint(1, 2))]
+        pre += [[rng.choice([-40.0, 60.0, G / 2.0]), rng.choice([-50.0, 70.0, G / 2.0])] for _ in range(rng.randint(1, 2))]
+        pre += [[rng.randint(0, 4 * G) / 4.0, rng.randint(0, 4 * G) / 4.0] for _ in range(rng.randint(0, 2))]
     return {'nodes': nodes, 'coord': {k: list(v) for k, v in coord.items()}, 'edges': [list(e) for e in edges],
-            'path': [list(p) for p in path], 'family': family, 'G': G, 'linked': linked}
+            'path': [list(p) for p in path], 'family': family, 'G': G, 'linked': linked, 'pretrace': pre}
 
 
 def gen_config(rng, allow=('ne', 'W', 'nodes', 'cuts', 'goback'), cls=None):
@@ -332,6 +339,11 @@ def run_geo(inst, cf, conc, ops=None, unique=False, full=True, snapper=None):
     with log_level(conc.debug):
         mp = build_map(inst, conc)
         m = build_matcher(mp, cf, conc)
+        if inst.get('pretrace'):
+            try:
+                m.match([conc.loc(p) for p in inst['pretrace']])       # an earlier, unrelated use of the same matcher object
+            except Exception:
+                pass
         sn = snapper(m) if snapper else None
         path_all = [conc.loc(p) for p in inst['path']]
         if conc.triples:
